@@ -104,6 +104,7 @@ class _CfgStats:
         self.samples = []
         self.functions = set()
         self.max_inputs = 0
+        self.harness_errors = []
 
     def to_json(self):
         d = dict(self.__dict__)
@@ -172,11 +173,15 @@ def _worker(hname, cfgs, opts, tasks, results, widx):
                     cx = SymCtx(E, known_labels=set(st.cands.keys()))
                     shims.set_ctx(cx)
 
-                    def fn(E_, cx=cx, cfg=cfg):
+                    def fn(E_, cx=cx, cfg=cfg, st=st):
                         try:
                             hmod.run(cx, cfg)
                         except PathEnd:
                             pass
+                        except Exception as ex:  # harness bug / unsupported proxy operation: exit 2, never a verdict
+                            if len(st.harness_errors) < 3:
+                                st.harness_errors.append("%s: %s\n%s" % (type(ex).__name__, ex, traceback.format_exc()[-1200:]))
+                            st.counters["harness_error_paths"] = st.counters.get("harness_error_paths", 0) + 1
 
                     profiling = st.paths == 0
                     if profiling:
@@ -382,6 +387,7 @@ def run_harness(hname, tier="quick", seed=0, only=None):
             m["max_inputs"] = max(m["max_inputs"], st["max_inputs"])
             m["unknown"] += st["unknown"]
             m["validation_fail"] += st["validation_fail"]
+            m["harness_errors"] += st["harness_errors"]
             m["samples"] = (m["samples"] + st["samples"])[:2]
             m["functions"] = sorted(set(m["functions"]) | set(st["functions"]))
             for k, v in st["counters"].items():
@@ -480,6 +486,10 @@ def run_harness(hname, tier="quick", seed=0, only=None):
     if errors:
         status = 2
         reasons.append("worker errors: " + errors[0][:2000])
+    herrs = [(cfgs[ci]["name"], e) for ci, m in merged.items() for e in m.get("harness_errors", [])]
+    if herrs:
+        status = 2
+        reasons.append("harness error in %d config(s), e.g. %s: %s" % (len(set(h[0] for h in herrs)), herrs[0][0], herrs[0][1][-900:]))
     if missing_cfgs and not dropped:
         status = 2
         reasons.append("configurations not explored: %s" % missing_cfgs[:5])
